@@ -55,6 +55,10 @@ func c11_4(c *core.Ctx, p *core.Prog) {
 							continue
 						}
 						ctxPath := core.AccessPath(cl.Call.Value)
+						if chPath != "" && ctxPath == "" {
+							msg = fmt.Sprintf("the reply on %s is raced with the Done() of %s, which is not the context of the waiter being answered: when that waiter has left and its one-slot channel is full the goroutine blocks for as long as the other context lives (for the shard's own export context: forever), so the waiters behind it in the batch never get their outcome and Shutdown hangs", chPath, valueLabel(cl.Call.Value))
+							continue
+						}
 						if chPath == "" || ctxPath == "" {
 							msg = "contributor of the send / Done arm not recognised"
 							continue
@@ -89,6 +93,7 @@ func init() {
 	register("C11", &core.Rule{ID: "C11.2", Title: "wait group covers every goroutine; Shutdown closes then waits", Mod: core.ModCBP, Floor: 5, Run: c11_2})
 	register("C11", &core.Rule{ID: "C11.3", Title: "shared fields are confined to one goroutine or lock-protected", Mod: core.ModCBP, Floor: 10, Run: c11_3})
 	register("C11", &core.Rule{ID: "C11.4", Title: "sends in the export goroutine are cancellable by the same contributor", Mod: core.ModCBP, Floor: 1, Run: c11_4})
+	register("C06", &core.Rule{ID: "C06.9", Title: "a reply is abandoned only when that waiter's own context is done (otherwise the waiters behind it in the batch never get their outcome)", Mod: core.ModCBP, Floor: 1, Run: c11_4})
 	register("C11", &core.Rule{ID: "C11.5", Title: "shard loop drains, flushes and returns on shutdown", Mod: core.ModCBP, Floor: 3, Run: c05_6})
 }
 
